@@ -112,7 +112,7 @@ manifest = {
    "source_commits": hook_commits,
    "add_only": True,
  },
- "engines": [{"name": e, "path": f"/verif/sim/src/engines/{e}.rs" if e in ("logsim","streamsim") else f"/verif/sim/src/engines/{e.split('+')[0]}", "serves_properties": sorted(p), "kind_free_text": "seeded deterministic simulator, single-threaded per run, 16 runs in parallel"} for e,p in sorted(engines.items())],
+ "engines": [{"name": e, "path": (lambda b: f"/verif/sim/src/engines/{b}.rs" if b in ("logsim","streamsim","netsim") else f"/verif/sim/src/engines/{b}")(e.split('+')[0]), "serves_properties": sorted(p), "kind_free_text": "seeded deterministic simulator, single-threaded per run, 16 runs in parallel" + (" (two engines serve this property: " + " and ".join(e.split('+')) + ")" if '+' in e else "")} for e,p in sorted(engines.items())],
  "checks": checks,
  "not_applicable": na,
  "notes": "Exit codes: 0 held, 1 VIOLATION (with replay file), 2 harness/build error. VERIF_SEED selects the base seed (default 1). Known findings: /verif/KNOWN_FINDINGS.txt.",
